@@ -21,6 +21,7 @@ var zzPKs = [][]uint32{nil, {0}, {1}, {0, 1}, {1, 0}}
 
 type zzCfg struct {
 	nrows, ncols, pk, cellLen, removed int
+	removed2                           int // a second removed column (> removed), -1 = none
 	emptyKeyRow                        bool
 	emptyCells                         bool
 }
@@ -89,13 +90,15 @@ func zzKeyLess(kc []int, a, b []string) bool {
 	return less
 }
 
-func zzRemove(row []string, removed int) []string {
-	if removed < 0 {
+func zzRemove(row []string, removed int) []string { return zzRemove2(row, removed, -1) }
+
+func zzRemove2(row []string, removed, removed2 int) []string {
+	if removed < 0 && removed2 < 0 {
 		return row
 	}
 	var r []string
 	for i, s := range row {
-		if i != removed {
+		if i != removed && i != removed2 {
 			r = append(r, s)
 		}
 	}
@@ -120,15 +123,19 @@ func zzCheck(tag string, c zzCfg, in, out [][]string) {
 	removed := c.removed
 	// key columns as positions in the output rows
 	var kcOut []int
+	removed2 := c.removed2
 	for _, k := range kc {
-		if k == removed {
+		if k == removed || k == removed2 {
 			continue
 		}
+		shift := 0
 		if removed >= 0 && k > removed {
-			kcOut = append(kcOut, k-1)
-		} else {
-			kcOut = append(kcOut, k)
+			shift++
 		}
+		if removed2 >= 0 && k > removed2 {
+			shift++
+		}
+		kcOut = append(kcOut, k-shift)
 	}
 	for j := 1; j < len(out); j++ {
 		zzverif.Assert(tag+"strictly-ascending-by-key", zzKeyLess(kcOut, out[j-1], out[j]))
@@ -136,14 +143,14 @@ func zzCheck(tag string, c zzCfg, in, out [][]string) {
 	for i := range in {
 		cnt := 0
 		for j := range out {
-			cnt += zzverif.B2I(zzKeyEq(kcOut, zzRemove(in[i], removed), out[j]))
+			cnt += zzverif.B2I(zzKeyEq(kcOut, zzRemove2(in[i], removed, removed2), out[j]))
 		}
 		zzverif.Assert(tag+"every-input-key-present-exactly-once", cnt == 1)
 	}
 	for j := range out {
 		found := false
 		for i := range in {
-			found = zzverif.Or(found, zzRowEq(zzRemove(in[i], removed), out[j]))
+			found = zzverif.Or(found, zzRowEq(zzRemove2(in[i], removed, removed2), out[j]))
 		}
 		zzverif.Assert(tag+"every-output-row-is-an-input-row-without-removed-columns", found)
 	}
@@ -153,7 +160,11 @@ func zzRemovedMap(c zzCfg) map[int]struct{} {
 	if c.removed < 0 {
 		return nil
 	}
-	return map[int]struct{}{c.removed: {}}
+	m := map[int]struct{}{c.removed: {}}
+	if c.removed2 >= 0 {
+		m[c.removed2] = struct{}{}
+	}
+	return m
 }
 
 func zzBlocks(s *Sorter, c zzCfg) [][]string {
@@ -195,7 +206,7 @@ func zzRowsOut(s *Sorter, c zzCfg) [][]string {
 
 func zzParams() zzCfg {
 	return zzCfg{nrows: zzverif.Param("rows", 2), ncols: zzverif.Param("cols", 2), pk: zzverif.Param("pk", 1), cellLen: zzverif.Param("cellLen", 1),
-		removed: zzverif.Param("removed", -1), emptyKeyRow: zzverif.Param("emptyKey", 0) == 1, emptyCells: zzverif.Param("emptyCells", 0) == 1}
+		removed: zzverif.Param("removed", -1), removed2: zzverif.Param("removed2", -1), emptyKeyRow: zzverif.Param("emptyKey", 0) == 1, emptyCells: zzverif.Param("emptyCells", 0) == 1}
 }
 
 func zzRegions(c zzCfg, in [][]string) {
